@@ -39,3 +39,9 @@ pub fn find_or_register_bmp_router(
 ) -> IngressId {
     r.find_or_register_bmp_router(query)
 }
+
+/// `Register::find_or_register_peer()`: what `PeerStates::add_peer_config`
+/// and mrt-file-in call for a peer (C14 race stream).
+pub fn find_or_register_peer(r: &Register, query: IngressInfo) -> IngressId {
+    r.find_or_register_peer(query)
+}
